@@ -366,3 +366,68 @@ def tag_slot_tables(w, fn, marker, out_param=2, depth=0):
                         res.extend(tag_slot_tables(w, c, marker, out_param=j + 1, depth=depth + 1))
                         break
     return res
+
+
+def tag_count_order(w, fn):
+    """the per-character tag lists are collected in a local Vec<Vec<_>>; the number of tag slots is the maximum of their
+    lengths (a fold/max over an iterator of that local).  Returns (collection local, [count call bbs],
+    [(count bb, bb of a later `&mut collection`)]): a mutable borrow of the collection reachable after the count was taken
+    means a tag can still be appended that the count does not cover."""
+    b = C.body(w, fn)
+    cf = cfgmod.cfg_of(b)
+    coll = [l for l in range(b.arg_count + 1, len(b.locals)) if re.fullmatch(r"S::vec::Vec<S::vec::Vec<(S::string::String|.*Cow<.*str>)>>", C.tyn(b.locals[l]["ty"])) and l in b.names()]
+    if len(coll) != 1:
+        return None, [], []
+    coll = coll[0]
+    counts = []
+    for bb, t in cfgmod.calls(b):
+        c = cfgmod.callee(t) or ""
+        if c.endswith("Iterator>::fold") or c.endswith("Iterator>::max") or c.endswith("Iterator>::max_by_key"):
+            a = t["args"][0]
+            p = a.get("move") or a.get("copy")
+            if p and coll in C.backward_locals(b, p["local"]):
+                counts.append(bb)
+    late = []
+    for cb in counts:
+        reach = cf.reachable(cb) - {cb}
+        for bb in sorted(reach):
+            for s in b.blocks[bb]["stmts"]:
+                if s["k"] == "assign" and s["rv"]["k"] in ("ref", "rawptr") and s["rv"].get("mut") and s["rv"]["place"]["local"] == coll:
+                    late.append((cb, bb))
+    return coll, counts, late
+
+
+TEXT_SCAN_OK = ("str::is_empty", "str::len", "str::chars", "str::char_indices")
+
+
+def text_param_uses(w, fn):
+    """calls of a parser that receive the input text parameter (parameter 1, a &str) directly or through reborrows:
+    [(bb, callee)].  The formats give a meaning to characters only relative to the escape state, which exists only inside
+    the per-character scan; any other inspection of the raw text (ends_with, contains, find, split, ...) decides on
+    characters without knowing whether they are escaped."""
+    b = C.body(w, fn)
+    out = []
+    if not b.locals[1]["ty"].startswith("&") or "str" not in b.locals[1]["ty"]:
+        return None
+    for bb, t in cfgmod.calls(b):
+        for a in t["args"]:
+            q = a.get("copy") or a.get("move")
+            if q and "str" in b.locals[q["local"]]["ty"] and b.locals[q["local"]]["ty"].startswith("&") and 1 in C.backward_locals(b, q["local"], depth=4):
+                # only direct reborrows of the parameter: no call in between
+                if not any(b.blocks[i]["term"]["k"] == "call" and b.blocks[i]["term"]["dest"]["local"] in C.backward_locals(b, q["local"], depth=4) for i in range(len(b.blocks))):
+                    out.append((bb, cfgmod.callee(t) or "?"))
+    return out
+
+
+def text_scan_rule(chk, w, rule, parser):
+    uses = text_param_uses(w, parser)
+    sh = parser.split("::")[-1]
+    if uses is None:
+        chk.undecided(rule, "parser:%s:text-only-scanned" % sh, "parameter 1 of %s is not the input &str" % parser, site=C.site(C.body(w, parser)))
+        return
+    bad = [(bb, c) for bb, c in uses if not any(c.endswith(x) for x in TEXT_SCAN_OK)]
+    scans = [c for _, c in uses if c.endswith("str::chars") or c.endswith("str::char_indices")]
+    chk.ob(rule, "parser:%s:text-only-scanned" % sh, not bad and len(scans) == 1,
+           "%s inspects its input text through %s besides the single character scan (%d scan(s)); a predicate on the raw text cannot know whether a character is escaped, "
+           "so text the writer produces (e.g. a token ending in an escaped space) can be rejected or split differently" % (parser, sorted({c for _, c in bad}), len(scans)),
+           site=C.site(C.body(w, parser), bad[0][0] if bad else None), sample={"parser": sh, "uses": sorted({c for _, c in uses})})
